@@ -129,7 +129,7 @@ def gen_big(rng, tier):
 
 
 def gen(tier, rng):
-    n = 14 if tier == 'quick' else 32
+    n = 11 if tier == 'quick' else 32
     out = [gen_case(rng, tier, big=(tier != 'quick')) for _ in range(n)]
     rb = random.Random(rng.randrange(10 ** 9))
     return [gen_big(rb, tier) for _ in range(1 if tier == 'quick' else 2)] + out
